@@ -28,6 +28,21 @@ PROPS = {
                         "str / f64 -> decimal (rust_decimal parse, rescale: trusted dependency A3)",
                         "PerTypeLookup::new priority table / conflict rule (populates a HashMap)"],
     },
+    "C03": {
+        "level": "proof",
+        "design_ref": "DESIGN.md §3 C03",
+        "technique": "Kani contract harnesses on the decoder's primitives and one-step block-reader contracts from arbitrary state, oracle = executable Avro spec; Verus lemma lifts the step contract to any block partition",
+        "level_text": "Deductive proof per decoding primitive over every byte string it can examine: the decoded value is the specification's value for every valid "
+                      "encoding (varints incl. extremes, bool, floats, length-delimited, enum/union index), and every listed malformation is Err. Block layouts: "
+                      "read_block_len and BlockReader::has_more are proved as inductive one-step contracts from an ARBITRARY reader state, so any number of blocks "
+                      "in positive- or negative-count form is covered; a bounded end-to-end harness ties the step function to the real SeqAccess.",
+        "level_note": "UTF-8 validation delegates to core::str::from_utf8 (trusted std, A1); lengths of strings/arrays in end-to-end harnesses bounded and labelled; A4 A6 A8.",
+        "assumptions": [A1, A3, A4, A6, A7, A8],
+        "explanation": "Functions under contract: SliceRead::read_varint/read_slice/read_const_size_buf, read_bool, read_len/read_length_delimited, read_discriminant, "
+                       "read_enum_as_str, read_union_discriminant, deserialize_option, read_block_len, BlockReader::has_more, ArraySeqAccess.",
+        "not_decided": ["over-long (non-minimal) varints are accepted for in-range values: the property's list of invalid inputs does not include them",
+                        "decimal decode (read_decimal) only for the integer-hinted scale-0 path; rust_decimal formatting is trusted (A3)"],
+    },
     "C08": {
         "level": "proof",
         "design_ref": "DESIGN.md §3 C08",
@@ -59,6 +74,21 @@ PROPS = {
                        "between the two real implementations, plus the single-object reader entry point.",
         "not_decided": ["lifting primitive equivalence to whole-datum equivalence (parametricity, A6)",
                         "Take / into_left_after_take sub-readers are covered under C17"],
+    },
+    "C16": {
+        "level": "other",
+        "design_ref": "DESIGN.md §3 C16",
+        "technique": "Kani contract harness on write_all_vectored against a nondeterministic sink double (every acceptance / interruption / error schedule), bounded slice lengths",
+        "level_text": "Bounded deductive check (labelled bounded, not a proof for all sizes): the real write_all_vectored loop, with std's IoSlice::advance_slices, is verified "
+                      "against a sink whose every write_vectored call nondeterministically accepts any prefix (0..=remaining), is interrupted, or fails hard. For every such "
+                      "schedule over three slices of bounded length: Ok implies the sink holds exactly the concatenation; zero-length acceptance gives WriteZero; hard errors "
+                      "surface; what was delivered before an error is a prefix. The loop has no size-dependent logic, but the bound is stated.",
+        "level_note": "Bounds: slice lengths <= 2 (quick) / <= 3 (thorough), <= 2 interruptions. The caller side (flush_finished_block keeps the pending block on Err) is a C15 obligation. A1 A8.",
+        "assumptions": [A1, A7, A8],
+        "explanation": "Functions under contract: write_all_vectored, write_all_vectored_inner (+ IoSlice::advance_slices as linked). Exhaustive over schedules within the stated "
+                       "slice-length bounds via symbolic choice, not sampled.",
+        "not_decided": ["slices longer than the bound (needs an inductive invariant over &mut &mut [IoSlice], outside Verus' subset)",
+                        "plain (non-vectored) header write goes through std's Write::write_all (trusted std, A1)"],
     },
     "C18": {
         "level": "proof",
